@@ -28,6 +28,15 @@ def fragStep (st : FragSt) (ops : List String) (impl : String) : FragSt × Strin
     match Frag.tell st.inner st.cfg id (hexArg payload) with
     | none => (st, "err-mtu")
     | some ps => ({ st with ids := (src, (id + 1) % 2 ^ 32) :: st.ids.filter (·.1 != src) }, showPkts ps)
+  | ["frag-tellfail", src, payload, k] =>
+    -- the inner transport refuses fragment `k`: the message id is used up all the same
+    let src := natArg src
+    let id := (st.ids.lookup src).getD 0
+    match Frag.tell st.inner st.cfg id (hexArg payload) with
+    | none => (st, "err-mtu")
+    | some ps =>
+      let st' := { st with ids := (src, (id + 1) % 2 ^ 32) :: st.ids.filter (·.1 != src) }
+      if natArg k < ps.length then (st', ("err " ++ showPkts (ps.eraseIdx (natArg k))).trimRight) else (st', showPkts ps)
   | ["frag-recv", src, pkt] =>
     let (rst, out) := Frag.recv st.rst (natArg src) (hexArg pkt)
     ({ st with rst }, match out with | some p => "deliver " ++ toHex p | none => "none")
